@@ -76,9 +76,27 @@ func decData(v string) string {
 	return v
 }
 
-func newNftEnv(fl *drv.Flags, classes, ids []string) *nftEnv {
+// usersIn: the largest N with an account name uN in the behaviour (replays of
+// traces recorded with a larger universe than the default one).
+func usersIn(beh []chain.M, fields ...string) int {
+	max := 0
+	for _, ev := range beh {
+		for _, f := range fields {
+			var n int
+			if _, err := fmt.Sscanf(chain.Str(ev, f), "u%d", &n); err == nil && n > max && n < 50 {
+				max = n
+			}
+		}
+	}
+	return max
+}
+
+func newNftEnv(fl *drv.Flags, classes, ids []string, minUsers int) *nftEnv {
 	e := &nftEnv{names: map[string]string{}}
 	n := int(fl.CfgInt("users", 3))
+	if minUsers > n {
+		n = minUsers
+	}
 	accts := map[string]string{}
 	for i := 1; i <= n; i++ {
 		u := fmt.Sprintf("u%d", i)
@@ -319,7 +337,7 @@ func nftRun(fl *drv.Flags, beh []chain.M, w *chain.TraceWriter) {
 		ids = append(ids, chain.Str(ev, "id"))
 		hasEnd = hasEnd || chain.Str(ev, "name") == "EndBlock"
 	}
-	e := newNftEnv(fl, classes, ids)
+	e := newNftEnv(fl, classes, ids, usersIn(beh, "who", "to"))
 	e.start(w)
 	per := int(fl.CfgInt("perblock", 3))
 	var pending []chain.M
@@ -370,7 +388,7 @@ func nftDriver(mode string, fl *drv.Flags) error {
 func nftRandom(fl *drv.Flags, rng *rand.Rand, w *chain.TraceWriter) {
 	classPool := []string{"cla", "clab", "cla/x", "clb"}
 	idPool := []string{"tka", "tkab", "tk/a", "tkb", "cla"}
-	e := newNftEnv(fl, classPool, idPool)
+	e := newNftEnv(fl, classPool, idPool, 0)
 	e.start(w)
 	vals := []string{"a", "b", "", "c"}
 	pick := func(l []string) string { return l[rng.Intn(len(l))] }
